@@ -79,6 +79,13 @@ var sessCorpus = []struct {
 	// … and the same for the request's own start element
 	{"i:0:e:r:q", "c0,o0,s0,pi9r,pi0r,g,h,k0"},
 	{"m:3:c:r:q,i:9:e:r", "c0,o0,c1,o1,s0,s1,pm9e,pm3e,g,h,k0,pi9r,g,h,k1"},
+	// round E (review A C06-4): a second call REGISTERS (and transmits) while the serve loop is
+	// parked behind its look-up / inside the hand-off select / waiting for the close — a lock held
+	// across the hand-off would stall exactly here
+	{"i:0:e:r,i:1:e:r", "c0,o0,pi0r,c1,o1,g,s0,h,k0,s1,pi1r,g,h,k1"},
+	{"i:0:e:r,i:1:e:r", "c0,o0,pi0r,g,c1,o1,s1,s0,h,k0,pi1r,g,h,k1"},
+	{"i:0:e:r,m:1:c:e", "c0,o0,s0,pi0r,g,h,c1,o1,s1,k0,pm1e,g,h,k1"},
+	{"i:0:e:r,i:1:e:r", "c0,o0,s0,pi0r,g,c1,x1,o1,s1,h,k0"},
 }
 
 // every stanza kind x type (result, error; normal, get, set) x id (two requester ids and an
@@ -327,7 +334,7 @@ func replayable(trace string) []string {
 			continue
 		}
 		switch t[0] {
-		case 'R', 'H', 'T', 'U':
+		case 'R', 'H', 'T', 'U', 'A':
 			continue
 		}
 		out = append(out, t)
